@@ -1,43 +1,22 @@
 (* C19: IP dictionaries report exact membership.  Property theorems only.
-   Model: coq/model/IpDict.v (IPItems.InsertPair/Sort with mergeItems/checkMerge and the zero-address
-   tombstones, IPTable.Search); sort.Sort is a parameter. *)
+   Model: coq/model/IpDict.v (IPItems.InsertPair / InsertSingle, IPItems.Sort = sort + mergeItems + reslice as
+   repaired by /repo commit db8c170, IPTable.Search); sort.Sort is a parameter. *)
 From Coq Require Import List ZArith Bool Sorted Permutation.
 From Bfe Require Import lib.Val lib.ValProofs model.IpDict run.RunC19 proofs.IpDictProofs.
 Import ListNotations.
 Open Scope Z_scope.
 
-(* HEADLINE.  sort.Sort is only assumed to return a permutation of its input that is sorted w.r.t. the
-   (non-strict) Less of ipPairs -- `valid_sorter`; the two calls inside IPItems.Sort may even behave
-   differently (s1, s2).  For every such sorter, every collection of loaded ranges (start <= end, nested /
-   overlapping / adjacent / duplicated, IPv4-mapped or IPv6) that does not collide with the tombstone
-   encoding (`no_zero_sentinel`: at most one range, or no range starts at :: and none is 0.0.0.0-0.0.0.0),
-   every set of single addresses and every probe address:
-   IPTable.Search reports the probe exactly when it equals a loaded single address or lies inside a loaded
-   range, bounds included.  This is what mod_block and mod_trust_clientip rely on. *)
-Theorem C19_search_exact : forall s1 s2 items singles ip,
-  valid_sorter s1 -> valid_sorter s2 ->
-  forallb wf_rng items = true -> no_zero_sentinel items = true ->
-  table_search singles (build2 s1 s2 items) ip = spec singles items ip.
+(* HEADLINE (no guard).  sort.Sort is only assumed to return a permutation of its input that is sorted w.r.t.
+   the (non-strict) Less of ipPairs -- `valid_sorter`.  For every such sorter, EVERY collection of loaded ranges
+   (start <= end; nested, overlapping, touching, adjacent, duplicated; IPv4-mapped or IPv6; including ranges
+   starting at :: or 0.0.0.0 and the pairs ::-:: and 0.0.0.0-0.0.0.0), every set of single addresses and every
+   probe address: IPTable.Search reports the probe exactly when it equals a loaded single address or lies inside
+   a loaded range, bounds included.  This is what mod_block and mod_trust_clientip rely on. *)
+Theorem C19_search_exact : forall sorter, valid_sorter sorter ->
+  forall items singles ip, forallb wf_rng items = true ->
+  table_search singles (build sorter items) ip = spec singles items ip.
 Proof. exact search_exact. Qed.
 Print Assumptions C19_search_exact.
-
-(* The guard cannot be dropped (genuine defect, known finding 1): two ranges starting at :: -- after the
-   merge the tombstone (::,::) and the survivor (::,::9) have equal keys, Go's insertion sort (what sort.Sort
-   runs below 13 elements) puts the tombstone first and the reslice drops the survivor: ::3 is not found. *)
-Theorem C19_refuted_v6zero_start :
-  exists items ip, forallb wf_rng items = true /\
-    table_search [] (build go_insertion_sort items) ip = false /\ spec [] items ip = true.
-Proof. exact refuted_v6zero. Qed.
-Print Assumptions C19_refuted_v6zero_start.
-
-(* Known finding 2: 0.0.0.0-0.0.0.5, 0.0.0.2-0.0.0.9 and the pair 0.0.0.0-0.0.0.0: endIP == 0.0.0.0 is
-   taken for a tombstone, is never merged and ends up in front of the merged range 0.0.0.0-0.0.0.9 that has
-   the same start: the binary search stops at it and 0.0.0.1 is not found. *)
-Theorem C19_refuted_v4zero_pair :
-  exists items ip, forallb wf_rng items = true /\
-    table_search [] (build go_insertion_sort items) ip = false /\ spec [] items ip = true.
-Proof. exact refuted_v4zero. Qed.
-Print Assumptions C19_refuted_v4zero_pair.
 
 (* The hypothesis on sort.Sort is satisfiable: Go's insertion sort (as modelled) is a valid sorter. *)
 Theorem C19_insertion_sort_valid : valid_sorter go_insertion_sort.
@@ -45,29 +24,53 @@ Proof. exact go_insertion_sort_valid. Qed.
 Print Assumptions C19_insertion_sort_valid.
 
 (* sort.Search is modelled by its contract (first index whose start is <= ip); the contract applies because
-   the array left by IPItems.Sort is sorted by descending start. *)
-Theorem C19_final_sorted : forall s1 s2 items,
-  valid_sorter s1 -> valid_sorter s2 -> Forall good items ->
-  StronglySorted (fun a b => fst b <= fst a) (build2 s1 s2 items).
+   the array left by IPItems.Sort is sorted by descending start ... *)
+Theorem C19_final_sorted : forall sorter, valid_sorter sorter ->
+  forall items, forallb wf_rng items = true ->
+  StronglySorted (fun a b => fst b <= fst a) (build sorter items).
 Proof. exact final_sorted. Qed.
 Print Assumptions C19_final_sorted.
 
-(* The executable predicate the harness evaluates on the implementation's answers holds of the model on
-   every decodable input (bytes non-negative) outside the two known-finding classes. *)
-Theorem C19_prop_of_model : forall v i,
-  dec_input v = Some i -> wf_input i -> kf_C19 v = 0 -> prop_C19 v (run_C19 v) = true.
+(* ... and its entries are pairwise disjoint and non-touching: every later entry ends before the start of
+   every earlier one (so the one candidate the binary search looks at is the only possible hit). *)
+Theorem C19_final_separated : forall sorter, valid_sorter sorter ->
+  forall items, forallb wf_rng items = true ->
+  StronglySorted (fun a b => snd b < fst a) (build sorter items).
+Proof. exact final_separated. Qed.
+Print Assumptions C19_final_separated.
+
+(* An IPv4 address given as a 4-byte net.IP (To4(), ParseCIDR) and as its 16-byte IPv4-mapped form is the same
+   address for InsertPair, InsertSingle and Search (all three only look at To16()). *)
+Theorem C19_v4_forms_same_address : forall b, length b = 4%nat -> to16 (v4prefix ++ b) = to16 b.
+Proof. exact to16_v4_forms. Qed.
+Print Assumptions C19_v4_forms_same_address.
+
+(* CENTRAL: the executable predicate the harness evaluates on the implementation's answers holds of the model
+   on every well-formed (= decodable) wire input; there is no known-finding class any more (kf_C19 = 0). *)
+Theorem C19_prop_of_model : forall v, wf_C19 v = true -> kf_C19 v = 0 -> prop_C19 v (run_C19 v) = true.
 Proof. exact prop_C19_of_model. Qed.
 Print Assumptions C19_prop_of_model.
+Example C19_wf_corpus_case :
+  wf_C19 (VL [VL [VL [VB [0;0;0;0]; VB [0;0;0;5]]; VL [VB [0;0;0;2]; VB [0;0;0;9]]; VL [VB [0;0;0;0]; VB [0;0;0;0]]];
+              VL []; VL [VB [0;0;0;1]; VB [0;0;0;0]; VB [0;0;0;9]; VB [0;0;0;10]]; VZ 0; VZ 0]) = true.
+Proof. exact C19_wf_example. Qed.
 
-(* Non-vacuity: nested, overlapping, touching, adjacent and duplicate ranges around 10.0.0.0 and one IPv6
-   range; the guard holds, three ranges survive the merge, and the search agrees with the specification
-   on bounds and bounds +-1. *)
+(* The two witnesses of the repaired defects: [::,::5]+[::,::9] probe ::3, and
+   [0.0.0.0,0.0.0.5]+[0.0.0.2,0.0.0.9]+[0.0.0.0,0.0.0.0] probe 0.0.0.1 (both were reported absent). *)
+Example C19_former_witnesses :
+  table_search [] (build go_insertion_sort [(0, 5); (0, 9)]) 3 = true /\
+  table_search [] (build go_insertion_sort [(Z4, Z4 + 5); (Z4 + 2, Z4 + 9); (Z4, Z4)]) (Z4 + 1) = true.
+Proof. exact C19_former_witnesses_lemma. Qed.
+
+(* Non-vacuity: nested, overlapping, touching, adjacent, duplicate ranges around 10.0.0.0, ranges starting at
+   :: and 0.0.0.0, the pairs ::-:: and 0.0.0.0-0.0.0.0 and a wide IPv6 range reaching over them (cascade). *)
 Example C19_nonvacuous :
   let a := Z4 + 167772160 in
   let items := [(a + 10, a + 20); (a + 15, a + 30); (a + 12, a + 13); (a + 30, a + 31); (a + 33, a + 40);
-                (a + 10, a + 20); (5, 9)] in
-  forallb wf_rng items = true /\ no_zero_sentinel items = true /\
-  build go_insertion_sort items = [(a + 33, a + 40); (a + 10, a + 31); (5, 9)] /\
-  map (fun ip => table_search [7] (build go_insertion_sort items) ip) [a + 9; a + 10; a + 31; a + 32; a + 33; a + 41; 4; 5; 9; 10; 7]
-  = [false; true; true; false; true; false; false; true; true; false; true].
+                (a + 10, a + 20); (5, 9); (0, 3); (0, 0); (Z4, Z4); (Z4, Z4 + 2); (1, Z4 + 1)] in
+  forallb wf_rng items = true /\
+  build go_insertion_sort items = [(a + 33, a + 40); (a + 10, a + 31); (0, Z4 + 2)] /\
+  map (fun ip => table_search [a + 50] (build go_insertion_sort items) ip)
+      [a + 9; a + 10; a + 31; a + 32; a + 33; a + 41; 0; 4; Z4 + 2; Z4 + 3; a + 50]
+  = [false; true; true; false; true; false; true; true; true; false; true].
 Proof. exact C19_nonvacuous_lemma. Qed.
